@@ -422,6 +422,22 @@ class InplaceDomain(TaintDomain):
     def shape_ann(self, ann):
         return E
 
+    def plain_param(self, interp, one, cls, path, ai, node):
+        """a callable constructor argument kept as is (`activation=F.relu`): its documented default
+        (A-CFG) -- so that what the default saves for its backward pass is known"""
+        for a in [ai] + list(getattr(ai, "alts", [])):
+            v = getattr(a, "value", None)
+            if isinstance(v, ast.Name) and a.func is not None:
+                for pn, d in a.func.params():
+                    if pn == v.id and d is not None:
+                        try:
+                            r = interp.p.resolve_expr(a.cls.module, d)
+                        except Exception:
+                            r = None
+                        if isinstance(r, tuple) and r and r[0] == "ext" and r[1].startswith("torch."):
+                            return AV("ext", r[1])
+        return None
+
     def _save(self, interp, av, node, op):
         if av is None or av.kind not in ("tensor", "top") or interp.frame.in_nograd():
             return
